@@ -89,7 +89,7 @@ def append_modules(scratch_repo, extra_text, log):
         if not os.path.exists(p):
             raise LostAnchor("R1: source file %s/%s not found" % (crate, src))
         with open(p, "a") as fh:
-            fh.write("\n\n#[cfg(kani)]\n#[allow(unused, non_snake_case, clippy::all)]\nmod __verif {\nuse super::*;\n")
+            fh.write("\n\n#[cfg(kani)]\n#[allow(unused, non_snake_case, clippy::all)]\npub(crate) mod __verif {\nuse super::*;\n")
             fh.write(body)
             fh.write("\n")
             fh.write(gen)
